@@ -105,6 +105,22 @@ func genProm(rt *rapid.T) promCase {
 			c.EndMs = c.StartMs + 1
 		}
 	}
+	// class "down-sampled range function": start multiple of 15 s, step and range >= 15 s, a
+	// range function the 15 s path supports, step >, = and < range. With step > range the
+	// planner adds the "tail of each step" filter (hints_downsample_planner.go:
+	// timestamp_ns % step == 0 OR > step - range), which must stay AND-ed to the window, type
+	// and fingerprint conditions.
+	dsRange := rapid.IntRange(0, 2).Draw(rt, "dsRange") == 0
+	if dsRange {
+		c.Func = []string{"avg_over_time", "min_over_time", "max_over_time", "sum_over_time", "count_over_time",
+			"last_over_time", "present_over_time", "absent_over_time"}[rapid.IntRange(0, 7).Draw(rt, "dsFunc")]
+		c.RangeMs = []int64{15000, 60000, 300000}[rapid.IntRange(0, 2).Draw(rt, "dsRangeMs")]
+		c.StepMs = []int64{15000, 60000, 300000, 900000}[rapid.IntRange(0, 3).Draw(rt, "dsStep")]
+		c.StartMs -= c.StartMs % 15000
+		if c.EndMs < c.StartMs+2*c.StepMs+1000 {
+			c.EndMs = c.StartMs + 2*c.StepMs + 1000 + r64(rt, 0, 600, "dsExtend")*1000
+		}
+	}
 	start, end := c.StartMs*nsMs, c.EndMs*nsMs
 	used := tsSet{}
 	val := 0.0
@@ -173,6 +189,13 @@ func genProm(rt *rapid.T) promCase {
 			c.Streams = append(c.Streams, s)
 		}
 	}
+	if m, ok := (Win{From: start, To: end}).middleDay(); ok {
+		s := Strm{Tag: "mid", Metric: true, Labels: lbl("mid")}
+		add(&s, m+r64(rt, 0, 3600, "midOff")*nsSec, inLo, inHi)
+		if len(s.Smps) > 0 {
+			c.Streams = append(c.Streams, s)
+		}
+	}
 	if some("pnear") {
 		s := Strm{Tag: "pnear", Metric: true, Labels: lbl("pnear")}
 		add(&s, start-nsMs-r64(rt, 0, 60000, "pnb")*nsMs, 1, start-nsMs)
@@ -193,6 +216,34 @@ func genProm(rt *rapid.T) promCase {
 		}
 		if len(s.Smps) > 0 {
 			c.Streams = append(c.Streams, s)
+		}
+	}
+	if dsRange {
+		// poison buckets whose position inside the step falls in the tail (bucket start a
+		// multiple of the step): days outside the window, of the log signal, of a fingerprint
+		// the matchers do not select
+		step := c.StepMs * nsMs
+		stream := func(tag string, metric bool, labels []gen.Label) *Strm {
+			for i := range c.Streams {
+				if c.Streams[i].Tag == tag {
+					return &c.Streams[i]
+				}
+			}
+			c.Streams = append(c.Streams, Strm{Tag: tag, Metric: metric, Labels: labels})
+			return &c.Streams[len(c.Streams)-1]
+		}
+		jit := func(name string) int64 { return r64(rt, 0, 14999, name) * nsMs }
+		s0 := stream("s0", true, lbl("s0"))
+		if b := floorTo(start-3*nsDay, step); b > 0 {
+			add(s0, b+jit("tj1"), b, b+15*nsSec-nsMs)
+		}
+		b := floorTo(end+3*nsDay, step) + step
+		add(s0, b+jit("tj2"), b, b+15*nsSec-nsMs)
+		if k := (start/step + 1) * step; k+15*nsSec <= end {
+			tw := stream("twin", false, lbl("s0"))
+			add(tw, k+jit("tj3"), k, k+15*nsSec-nsMs)
+			dc := stream("decoy", true, []gen.Label{gen.L("__name__", "m"), gen.L("app", "b"), gen.L("sid", "decoy")})
+			add(dc, k+jit("tj4"), k, k+15*nsSec-nsMs)
 		}
 	}
 	c.Ver = genVer(rt)
@@ -378,9 +429,35 @@ func predProm(c promCase, o *evid.Obs) error {
 				return fmt.Errorf("%s (%s path): the point at %s of %s lies inside the window but no scan of the sample tables admits it\n%s", ctx, path, fmtTs(sm.Ts), describe(bs), sqlDump(stmts))
 			}
 			o.Tag("found-inside")
+			if bs.spec.Tag == "mid" {
+				o.Tag("middle-day-only:found")
+			}
 			if _, has := res[bs.spec.Tag]; !has {
 				return fmt.Errorf("%s (%s path): %s has a point inside the window (%s) but is not in the result\n%s", ctx, path, describe(bs), fmtTs(sm.Ts), sqlDump(stmts))
 			}
+		}
+	}
+
+	// every returned series belongs to a stream the matchers select
+	for sid := range res {
+		ok := false
+		for i := range full.streams {
+			if full.streams[i].spec.Tag == sid && selectedMetric(full.streams[i].spec) {
+				ok = true
+			}
+		}
+		if !ok {
+			return fmt.Errorf("%s (%s path) returns a series sid=%q that the matchers do not select\n%s", ctx, path, sid, sqlDump(stmts))
+		}
+	}
+	if ds && c.StepMs != 0 && thinnedFuncs[c.Func] {
+		switch {
+		case c.StepMs > c.RangeMs:
+			o.Tag("ds-range-func:step>range(tail-filter)")
+		case c.StepMs == c.RangeMs:
+			o.Tag("ds-range-func:step=range")
+		default:
+			o.Tag("ds-range-func:step<range")
 		}
 	}
 
